@@ -106,6 +106,7 @@ pub fn run(run: &Run) {
         par_for(n, 1 << 14, |code| {
             let src = string_of(code, len);
             let case = json!({"kind": "string", "len": len, "code": code});
+            run.watch_num("string", len as u64, code);
             run.eval(1);
             if src.contains("//") || src.contains("/*") {
                 run.nontrivial(1);
@@ -134,7 +135,7 @@ pub fn run(run: &Run) {
 pub fn replay(case: &Value) -> Vec<Violation> {
     match case["kind"].as_str() {
         Some("string") => {
-            let len = case["len"].as_u64().unwrap_or(0) as usize;
+            let len = case["len"].as_u64().or(case["n"].as_u64()).unwrap_or(0) as usize;
             let code = case["code"].as_u64().unwrap_or(0);
             check_string(&string_of(code, len), case)
         }
